@@ -82,7 +82,7 @@ func (s *S) Prepare(c *scen.Ctx) { world.PrepareProcess() }
 func (s *S) YieldOff() []string {
 	return []string{"tars/util/rtimer", "tars/util/rogger", "tars/util/gpool", "tars/selector"}
 }
-func (s *S) Limits() (time.Duration, int) { return 3 * time.Minute, 1500000 }
+func (s *S) Limits() (time.Duration, int) { return 3 * time.Minute, 3000000 }
 
 const addr = "10.0.0.9:1000"
 
@@ -189,7 +189,24 @@ func (s *S) Run(c *scen.Ctx) {
 	c.Describe("timeout_ms", s.timeoutMs)
 	c.Describe("fragmented_reads", simnet.Cfg.Fragment)
 	c.Describe("delivery_delays", simnet.Cfg.Delay)
+	// other traffic of the same process: while the calls below are outstanding, a burst of further
+	// requests (notifications, calls through other proxies) draws request ids from the same generator
+	burnN := 0
+	if simrt.Draw(12, "c08.othertraffic") == 11 {
+		burnN = []int{1000, 1<<15 - 2, 1<<16 - 2}[simrt.Draw(3, "c08.burn")] - simrt.Draw(12, "c08.burnoff")
+	}
+	burnAfter := time.Duration(simrt.Draw(60, "c08.burnafter")) * time.Millisecond
 	var wg sync.WaitGroup
+	if burnN > 0 {
+		wg.Add(1)
+		simrt.GoNamed("othertraffic", func() {
+			defer wg.Done()
+			simrt.Sleep(burnAfter)
+			if tars.VerifBurnIDs(burnN, s.prxs...) {
+				c.Count("probe.ids_drawn_by_other_traffic_while_calls_wait", 1)
+			}
+		})
+	}
 	for ci := 0; ci < ncallers; ci++ {
 		ci := ci
 		wg.Add(1)
